@@ -1,6 +1,7 @@
 package main
 
 import (
+	"sort"
 	"fmt"
 	"go/constant"
 	"go/token"
@@ -72,6 +73,7 @@ func runC03(c *Ctx) {
 	objectPresenceRule(c, "R8", getStoreFlow(p))
 	// shared rule: history/tree scanners stop only at the end of their input (rules_c05.go)
 	scannerVerdictRule(c, "R9")
+	c03PushRemote(c)
 	up := p.Fn("commands", "(*uploadContext).UploadPointers")
 	prep := p.Fn("commands", "(*uploadContext).prepareUpload")
 	if up == nil || prep == nil {
@@ -701,4 +703,49 @@ var c03Canaries = []Canary{
 	{Name: "basic-upload-skip-verify", ExpectKey: "C03.R5", Edits: []Edit{{File: "tq/basic_upload.go", Find: "	io.Copy(io.Discard, res.Body)\n	res.Body.Close()\n\n	return verifyUpload(a.apiClient, a.remote, t)", Repl: "	io.Copy(io.Discard, res.Body)\n	res.Body.Close()\n\n	if res.StatusCode == 200 {\n		return nil\n	}\n	return verifyUpload(a.apiClient, a.remote, t)"}}},
 	{Name: "verify-error-shadowed", ExpectKey: "C03.R5#verifyUpload:result-is-last-attempt", Edits: []Edit{{File: "tq/verify.go", Find: "		var res *http.Response\n		if t.Authenticated {\n			res, err = c.Do(req)\n		} else {\n			res, err = c.DoWithAuth(remote, c.Endpoints.AccessFor(action.Href), req)\n		}", Repl: "		var res *http.Response\n		var err error\n		if t.Authenticated {\n			res, err = c.Do(req)\n		} else {\n			res, err = c.DoWithAuth(remote, c.Endpoints.AccessFor(action.Href), req)\n		}"}}},
 	{Name: "allow-missing-default-true", ExpectKey: "C03.R4#allowMissing-provenance", Edits: []Edit{{File: "commands/uploader.go", Find: "cfg.Git.Bool(\"lfs.allowincompletepush\", false)", Repl: "cfg.Git.Bool(\"lfs.allowincompletepush\", true)"}}},
+}
+
+// c03PushRemote (R10): the commits assumed to be on the server already are those reachable from the remote-tracking
+// refs of one particular remote. That remote has to be the one the objects are uploaded to (the push remote):
+// taking the exclusions from another remote skips objects the push target never received. Decided by provenance:
+// the remote name handed to the push scanner comes only from Configuration.PushRemote(), like the one the
+// transfer manifest of the upload is created for.
+func c03PushRemote(c *Ctx) {
+	p := c.P
+	n := 0
+	for _, fn := range p.RepoFuncs(productPkg) {
+		for _, ci := range CallsIn(fn, "lfs.NewGitScannerForPush") {
+			n++
+			arg := ci.Common().Args[1]
+			var from []string
+			good := true
+			for _, l := range p.Leaves(arg, func(v ssa.Value) FlowAct {
+				if cc, _, ok := CallResult(v); ok && strings.HasPrefix(CalleeName(cc.Common()), "(*config.Configuration).") {
+					return Stop
+				}
+				return Descend
+			}) {
+				if cc, _, ok := CallResult(l); ok {
+					nm := CalleeName(cc.Common())
+					from = append(from, nm)
+					if nm != "(*config.Configuration).PushRemote" {
+						good = false
+					}
+					continue
+				}
+				if _, isC := l.(*ssa.Const); isC {
+					continue
+				}
+				if prm, isP := l.(*ssa.Parameter); isP && short(prm.Type().String()) != "string" {
+					continue // the object whose field holds the name, not a name
+				}
+				from = append(from, describeValue(p, l))
+				good = false
+			}
+			sort.Strings(from)
+			c.Check(good && len(from) > 0, "R10", "push-scanner-remote:"+FnName(fn), p.InstrPos(ci), "the push scanner excludes what the push remote has (remote name from PushRemote())",
+				"the push scanner takes its `already on the server` set from "+strings.Join(from, ", ")+" instead of the remote being pushed to: objects reachable from another remote's tracking refs are never uploaded to this one")
+		}
+	}
+	c.AtLeast("R10", "push scanner constructions", n, 1)
 }
